@@ -1,8 +1,240 @@
-/- Model driver for C03 (stub: no ops yet). -/
+/-
+  Model driver for C03 (calendar grouping and statistics).  Line protocol: see DrvCore.  Mathlib-free.
+
+  A period is 8 tokens  st_month st_day st_hour end_month end_day end_hour timestep leap  (built with
+  `AP.mkOpt?` like `AnalysisPeriod(...)`).  Grouped values are ids: the value at position `i` is `i`.
+
+    cont_day|cont_month|cont_mph  <ap8>                    HourlyContinuousCollection(header(ap), range(len(ap)))
+    disc_day|disc_month|disc_mph  <ap8> <dleap> <moys…>    HourlyDiscontinuousCollection with datetimes from_moy(m, dleap)
+    daily_month <leap> <doys…>                             DailyCollection.group_by_month
+    op <interval> <stat> <p> cont <ap8> <vals…>            average_/total_/percentile_ daily|monthly|monthlyperhour
+    op <interval> <stat> <p> disc <ap8> <dleap> <n> <moys…> <vals…>
+    daily_op <stat> <p> <ap8> <n> <doys…> <vals…>          DailyCollection._monthly_operation
+    percentile <p> <vals…> | median | average | total | minmax <vals…>
+    highest|lowest <count> <vals…>
+
+  Groups are printed as runs `a-b` of consecutive ids; dictionaries as all keys (in order) followed by
+  the non-empty groups.
+-/
 import Ladybug.DrvCore
+import Ladybug.Model.Group
+import Ladybug.Model.Stats
+
+open Drv Cal
 
 namespace DrvC03
-def handle (_toks : List String) : String := "bad-op"
+
+def showErr : Grp.Err → String
+  | .key => "err:key"
+  | .value => "err:value"
+  | .index => "err:index"
+  | .assert => "err:assert"
+
+def showCalErr : Cal.Err → String
+  | .value => "err:value"
+  | .index => "err:index"
+  | .type => "err:type"
+
+def optInt? (s : String) : Option (Option Int) :=
+  if s = "N" then some none else s.toInt?.map some
+
+def period? (toks : List String) : Option (Except Cal.Err AP) :=
+  match toks with
+  | [a, b, c, d, e, f, g, l] => do
+    let a ← optInt? a
+    let b ← optInt? b
+    let c ← optInt? c
+    let d ← optInt? d
+    let e ← optInt? e
+    let f ← optInt? f
+    let g ← optInt? g
+    let l ← bool? l
+    pure (AP.mkOpt? a b c d e f g l)
+  | _ => none
+
+/-- Runs of consecutive ascending numbers: `[3,4,5,9,1,2]` ↦ `3-5,9,1-2`. -/
+def runs (l : List Nat) : String :=
+  let rec go : List Nat → Nat → Nat → List String → List String
+    | [], a, b, acc => (if a = b then toString a else s!"{a}-{b}") :: acc
+    | x :: xs, a, b, acc =>
+      if x = b + 1 then go xs a x acc
+      else go xs x x ((if a = b then toString a else s!"{a}-{b}") :: acc)
+  match l with
+  | [] => "-"
+  | x :: xs => ",".intercalate (go xs x x []).reverse
+
+def showDictNat (d : Grp.Dict Nat Nat) : String :=
+  "ok keys " ++ runs (d.map (·.1)) ++ " groups" ++
+    String.join ((d.filter (·.2 ≠ [])).map fun p => s!" {p.1}={runs p.2}")
+
+def showKey3 (k : Nat × Nat × Nat) : String := s!"{k.1}.{k.2.1}.{k.2.2}"
+
+def showDictMph (d : Grp.Dict (Nat × Nat × Nat) Nat) : String :=
+  "ok keys " ++ ",".intercalate (d.map fun p => showKey3 p.1) ++ " groups" ++
+    String.join ((d.filter (·.2 ≠ [])).map fun p => s!" {showKey3 p.1}={runs p.2}")
+
+/-- `DateTime.from_moy(m, leap)` for the datetimes of a discontinuous collection (`none` = the
+    harness sent a minute outside the year). -/
+def dts? (leap : Bool) (ms : List Nat) : Option (List DT) :=
+  ms.mapM fun (m : Nat) => match fromMoy leap (m : Int) with
+    | .ok d => some d
+    | .error _ => none
+
+def withIds {τ : Type} (l : List τ) : List (τ × Nat) := l.zip (List.range l.length)
+
+/-- The continuous constructor: asserts the whole-day window; values must have `len(ap)` entries. -/
+def contOk (ap : AP) (n : Nat) : Bool := ap.st_hour = 0 ∧ ap.end_hour = 23 ∧ n = ap.len
+
+/-- The datetimes of a continuous collection (`analysis_period.datetimes`). -/
+def contDts (ap : AP) : List DT :=
+  ap.moys.filterMap fun (m : Nat) => match fromMoy ap.leap (m : Int) with
+    | .ok d => some d
+    | .error _ => none
+
+def showRes {β : Type} (f : β → String) : Except Grp.Err β → String
+  | .ok b => f b
+  | .error e => showErr e
+
+def stat? (name p : String) : Option Stats.Op :=
+  match name with
+  | "average" => some .average
+  | "total" => some .total
+  | "percentile" => (rat? p).map .percentile
+  | _ => none
+
+def showRats (l : List Rat) : String := joinSp (l.map showRat)
+
+/-- Result of `_time_interval_operation`: header timestep, keys, values. -/
+def showOp {κ : Type} (ts : Nat) (sk : κ → String) (r : Except Grp.Err (List (κ × Rat))) : String :=
+  match r.bind Grp.resultCollection with
+  | .error e => showErr e
+  | .ok l => s!"ok {ts} {l.length} " ++ joinSp (l.map fun p => sk p.1) ++ " | " ++ showRats (l.map (·.2))
+
+/-- `_time_interval_operation(interval, op)` given the three group dictionaries. -/
+def intervalResult (ap : AP) (iv : String) (op : Stats.Op)
+    (gDay gMonth : Unit → Except Grp.Err (Grp.Dict Nat Rat))
+    (gMph : Unit → Except Grp.Err (Grp.Dict (Nat × Nat × Nat) Rat)) : String :=
+  if op.admissible = false then "err:assert"
+  else match iv with
+    | "daily" =>
+      showOp (Grp.resultTimestep ap .daily) toString
+        ((gDay ()).bind fun d => Grp.intervalOp d ap.doysInt op.apply)
+    | "monthly" =>
+      showOp (Grp.resultTimestep ap .monthly) toString
+        ((gMonth ()).bind fun d => Grp.intervalOp d ap.monthsInt op.apply)
+    | "monthlyperhour" =>
+      showOp (Grp.resultTimestep ap .monthlyPerHour) showKey3
+        ((gMph ()).bind fun d => Grp.intervalOp d ap.monthsPerHour op.apply)
+    | _ => "bad-op"
+
+def handle (toks : List String) : String :=
+  match toks with
+  | "cont_day" :: rest | "cont_month" :: rest | "cont_mph" :: rest =>
+    match period? rest with
+    | none => "bad-op"
+    | some (.error e) => showCalErr e
+    | some (.ok ap) =>
+      if ¬ (ap.st_hour = 0 ∧ ap.end_hour = 23) then "err:assert"
+      else
+        let vals := List.range ap.len
+        match toks.head? with
+        | some "cont_day" => showDictNat (Grp.contDay ap vals)
+        | some "cont_month" => showRes showDictNat (Grp.contMonth ap vals)
+        | _ => showRes showDictMph (Grp.discMph ap ((contDts ap).zip vals))
+  | "disc_day" :: rest | "disc_month" :: rest | "disc_mph" :: rest =>
+    match period? (rest.take 8), (rest.drop 8).head?.bind bool?, nats (rest.drop 9) with
+    | some (.error e), _, _ => showCalErr e
+    | some (.ok ap), some dl, some ms =>
+      match dts? dl ms with
+      | none => "bad-op"
+      | some ds =>
+        if ds.isEmpty then "err:assert"
+        else
+          let data := withIds ds
+          match toks.head? with
+          | some "disc_day" => showRes showDictNat (Grp.discDay ap data)
+          | some "disc_month" => showRes showDictNat (Grp.discMonth data)
+          | _ => showRes showDictMph (Grp.discMph ap data)
+    | _, _, _ => "bad-op"
+  | "daily_month" :: l :: rest =>
+    match bool? l, nats rest with
+    | some leap, some doys =>
+      if doys.isEmpty then "err:assert" else showRes showDictNat (Grp.dailyMonth leap (withIds doys))
+    | _, _ => "bad-op"
+  | "op" :: iv :: st :: p :: "cont" :: rest =>
+    match stat? st p, period? (rest.take 8), (rest.drop 8).mapM rat? with
+    | some _, some (.error e), _ => showCalErr e
+    | some op, some (.ok ap), some vals =>
+      if ¬ contOk ap vals.length then "err:assert"
+      else
+        intervalResult ap iv op (fun _ => .ok (Grp.contDay ap vals)) (fun _ => Grp.contMonth ap vals)
+          (fun _ => Grp.discMph ap ((contDts ap).zip vals))
+    | _, _, _ => "bad-op"
+  | "op" :: iv :: st :: p :: "disc" :: rest =>
+    match stat? st p, period? (rest.take 8), (rest.drop 8).head?.bind bool?,
+        (rest.drop 9).head?.bind String.toNat? with
+    | some _, some (.error e), _, _ => showCalErr e
+    | some op, some (.ok ap), some dl, some n =>
+      match nats ((rest.drop 10).take n), ((rest.drop 10).drop n).mapM rat? with
+      | some ms, some vals =>
+        match dts? dl ms with
+        | none => "bad-op"
+        | some ds =>
+          if ds.length ≠ vals.length ∨ ds.isEmpty then "err:assert"
+          else
+            let data := ds.zip vals
+            intervalResult ap iv op (fun _ => Grp.discDay ap data) (fun _ => Grp.discMonth data)
+              (fun _ => Grp.discMph ap data)
+      | _, _ => "bad-op"
+    | _, _, _, _ => "bad-op"
+  | "daily_op" :: st :: p :: rest =>
+    match stat? st p, period? (rest.take 8), (rest.drop 8).head?.bind String.toNat? with
+    | some _, some (.error e), _ => showCalErr e
+    | some op, some (.ok ap), some n =>
+      match nats ((rest.drop 9).take n), ((rest.drop 9).drop n).mapM rat? with
+      | some doys, some vals =>
+        if doys.length ≠ vals.length ∨ doys.isEmpty then "err:assert"
+        else if op.admissible = false then "err:assert"
+        else
+          showOp ap.timestep toString
+            ((Grp.dailyMonth ap.leap (doys.zip vals)).bind fun d => Grp.intervalOp d ap.monthsInt op.apply)
+      | _, _ => "bad-op"
+    | _, _, _ => "bad-op"
+  | "percentile" :: p :: rest =>
+    match rat? p, rest.mapM rat? with
+    | some p, some vals => showRes (fun r => "ok " ++ showRat r) (Stats.percentileChecked vals p)
+    | _, _ => "bad-op"
+  | "median" :: rest =>
+    match rest.mapM rat? with
+    | some vals => showRes (fun r => "ok " ++ showRat r) (Stats.median vals)
+    | none => "bad-op"
+  | "average" :: rest =>
+    match rest.mapM rat? with
+    | some vals => showRes (fun r => "ok " ++ showRat r) (Stats.average vals)
+    | none => "bad-op"
+  | "total" :: rest =>
+    match rest.mapM rat? with
+    | some vals => "ok " ++ showRat (Stats.total vals)
+    | none => "bad-op"
+  | "minmax" :: rest =>
+    match rest.mapM rat? with
+    | some vals =>
+      match Stats.minV vals, Stats.maxV vals with
+      | .ok a, .ok b => s!"ok {showRat a} {showRat b}"
+      | _, _ => "err:value"
+    | none => "bad-op"
+  | "highest" :: c :: rest =>
+    match c.toInt?, rest.mapM rat? with
+    | some c, some vals =>
+      showRes (fun r => "ok " ++ showRats r.1 ++ " | " ++ showNats r.2) (Stats.highestValues vals c)
+    | _, _ => "bad-op"
+  | "lowest" :: c :: rest =>
+    match c.toInt?, rest.mapM rat? with
+    | some c, some vals =>
+      showRes (fun r => "ok " ++ showRats r.1 ++ " | " ++ showNats r.2) (Stats.lowestValues vals c)
+    | _, _ => "bad-op"
+  | _ => "bad-op"
+
 end DrvC03
 
 def main : IO Unit := Drv.run DrvC03.handle
